@@ -54,6 +54,7 @@ func checkC12(c *Ctx) (string, error) {
 	c.Rule("R12.2", "overlaid packages: the original init is renamed and chained from the overlay's init exactly when it exists; deferred function bodies compile under the package state they were declared in", 6)
 
 	checkInitStubLinkage(c, bp)
+	checkPkgKindOrder(c, cp)
 	// ---------------- R12.1
 	ef := findFunc(bp, "defineEntryFunction")
 	gm := findFunc(bp, "genMainModule")
@@ -321,6 +322,7 @@ func checkC19(c *Ctx) (string, error) {
 	c.Rule("R19.3", "module objects: imported once under a nil test before first use; the interpreter is started before any initialiser; symbol binding is emitted after all bodies are compiled", 4)
 	c.Rule("R19.4", "shared type objects are never modified through a value (no assignment to the type fields of an Expr)", 1)
 	checkC19b(c, sp)
+	checkSliceDataLenPairs(c, sp)
 	checkPyCalleeSource(c, cp)
 
 	pv := findFunc(sp, "Builder.PyVal")
